@@ -131,7 +131,7 @@ def run_job(job, ctx):
         r = rng("c07", job["seed"], job["i"])
         blocks = [_random_block(r) for _ in range(40)]
         eol = "\r\n" if job["i"] % 3 == 0 else "\n"
-        for c in vbatch.run_batch(ctx, blocks, "hash", "keep-unique", model, eol=eol, sig_prefix="C07",
+        for c in vbatch.run_batch(ctx, blocks, "hash", "keep-unique", model, eol=eol, bom=(job["i"] % 3 == 1), sig_prefix="C07",
                                   nontrivial_fn=_nontrivial, sets_fn=_sets):
             acc.add(c)
     return acc.to_cases(h(job))
